@@ -47,26 +47,39 @@ theorem fixPermissions_reads_only (o : Options) (p : Bytes) (s s' : DState) (r :
        all_goals (cases h; exact ⟨rfl, rfl⟩))
 
 /-- `DriverFacts.ChmodLate d ops`, spelled out: every `chmod p` among `ops` comes after a `creat p` (it is the permission callback
-    that follows the write of `p`), or is directly followed by the operation it prepares — the backup (`rename p …`, or the creation
-    of an empty backup file) or the re-creation of the target —, or, only if `d`, is the very last operation -/
+    that follows the write of `p`), or is followed — with nothing but `mkdir`s in between — by the operation it prepares — the
+    backup (`rename p …`, or the creation of an empty backup file) or the re-creation of the target —, or, only if `d`, is followed
+    by `mkdir`s only up to the end -/
 theorem chmodLate_iff (d : Prop) (ops : List FsOp) : DriverFacts.ChmodLate d ops ↔
     ∀ i p m, ops[i]? = some (FsOp.chmod p m) →
       (∃ j, j < i ∧ ops[j]? = some (FsOp.creat p)) ∨
-      (∃ op, ops[i + 1]? = some op ∧ ((∃ b, op = FsOp.rename p b) ∨ ∃ b, op = FsOp.creat b)) ∨
-      (d ∧ i + 1 = ops.length) := Iff.rfl
+      (∃ k op, ops[i + 1 + k]? = some op ∧ ((∃ b, op = FsOp.rename p b) ∨ ∃ b, op = FsOp.creat b) ∧
+        ∀ j, j < k → ∃ q, ops[i + 1 + j]? = some (FsOp.mkdir q)) ∨
+      (d ∧ ∀ j, i < j → j < ops.length → ∃ q, ops[j]? = some (FsOp.mkdir q)) := Iff.rfl
 
 /-- **a section never leaves a read-only target writable without going on to write it**: in the operations of one section, a
-    `chmod p` is either the permission callback after `p` was re-created, or is directly followed by the backup / re-creation of the
-    target; the only exception is a `chmod` that is the last operation of a section that aborted with an I/O error (the very next
-    operation failed).  In particular a section that ends normally (patched, refused, skipped) or aborts for any other reason
-    (prerequisite, malformed text, …) has not changed any mode except on its way to a write. -/
+    `chmod p` is either the permission callback after `p` was re-created, or is followed by the backup / re-creation of the
+    target with nothing in between but the `mkdir`s of the directories of the backup name (`-B bak/`: `Backup::make_backup_for`
+    creates `bak` when it is not there); the only exception is a `chmod` after which a section that aborted with an I/O error (the
+    very next operation that is not such a `mkdir` failed, or a `mkdir` did) has made such directories only.  In particular a
+    section that ends normally (patched, refused, skipped) or aborts for any other reason (prerequisite, malformed text, …) has not
+    changed any mode except on its way to a write.
+
+    CHANGED with the model change "`make_backup_for` creates the directories of the backup name".  The statement was
+
+        … (∃ op, ops[i + 1]? = some op ∧ ((∃ b, op = FsOp.rename p b) ∨ ∃ b, op = FsOp.creat b)) ∨
+          (r = .error .systemError ∧ i + 1 = ops.length)
+
+    ("DIRECTLY followed"), which is false now: `chmod_directly_false` below (`chmod f`, `mkdir bak`, `rename f bak/f`).  It still
+    holds for every run in which no `chmod` is directly followed by a `mkdir`: `chmod_late_direct`. -/
 theorem section_chmod_late (o : Options) (format : Format) (s s' : DState) (r : Except Exn Bool)
     (h : (processSection o format).run s = (r, s')) :
     ∃ ops, s'.trace = s.trace ++ ops ∧
       ∀ i p m, ops[i]? = some (FsOp.chmod p m) →
         (∃ j, j < i ∧ ops[j]? = some (FsOp.creat p)) ∨
-        (∃ op, ops[i + 1]? = some op ∧ ((∃ b, op = FsOp.rename p b) ∨ ∃ b, op = FsOp.creat b)) ∨
-        (r = .error .systemError ∧ i + 1 = ops.length) := by
+        (∃ k op, ops[i + 1 + k]? = some op ∧ ((∃ b, op = FsOp.rename p b) ∨ ∃ b, op = FsOp.creat b) ∧
+          ∀ j, j < k → ∃ q, ops[i + 1 + j]? = some (FsOp.mkdir q)) ∨
+        (r = .error .systemError ∧ ∀ j, i < j → j < ops.length → ∃ q, ops[j]? = some (FsOp.mkdir q)) := by
   cases r with
   | ok a =>
     obtain ⟨ops, e, hl⟩ := (DriverFacts.processSection_late o format).ok _ _ _ h
@@ -76,13 +89,15 @@ theorem section_chmod_late (o : Options) (format : Format) (s s' : DState) (r : 
     exact ⟨ops, e', fun i p m hi => (hl i p m hi).imp id (Or.imp id (fun x => ⟨by rw [x.1], x.2⟩))⟩
 
 /-- the same for a whole run (sections and `DeferredWriter::finalize`): a `chmod` that is neither after the `creat` of its path nor
-    directly before a backup / creation is the last operation of a run that ended with exit status 2 -/
+    before a backup / creation (with only `mkdir`s in between) is followed by `mkdir`s only, in a run that ended with exit status 2.
+    (CHANGED as `section_chmod_late`; it was "directly before" / "is the last operation".) -/
 theorem run_chmod_late (o : Options) (s0 : DState) :
     ∃ ops, (runPatch o s0).2.trace = s0.trace ++ ops ∧
       ∀ i p m, ops[i]? = some (FsOp.chmod p m) →
         (∃ j, j < i ∧ ops[j]? = some (FsOp.creat p)) ∨
-        (∃ op, ops[i + 1]? = some op ∧ ((∃ b, op = FsOp.rename p b) ∨ ∃ b, op = FsOp.creat b)) ∨
-        ((runPatch o s0).1 = 2 ∧ i + 1 = ops.length) := by
+        (∃ k op, ops[i + 1 + k]? = some op ∧ ((∃ b, op = FsOp.rename p b) ∨ ∃ b, op = FsOp.creat b) ∧
+          ∀ j, j < k → ∃ q, ops[i + 1 + j]? = some (FsOp.mkdir q)) ∨
+        ((runPatch o s0).1 = 2 ∧ ∀ j, i < j → j < ops.length → ∃ q, ops[j]? = some (FsOp.mkdir q)) := by
   unfold runPatch
   split
   · exact ⟨[], by simp, fun i p m hi => by simp at hi⟩
@@ -93,6 +108,70 @@ theorem run_chmod_late (o : Options) (s0 : DState) :
     · next e s hr =>
       obtain ⟨ops, e', hl⟩ := (DriverFacts.processPatchM_late o).err _ _ _ hr
       exact ⟨ops, e', fun i p m hi => (hl i p m hi).imp id (Or.imp id (fun x => ⟨rfl, x.2⟩))⟩
+
+/-- the statements as they were ("directly followed" / "the very last operation") hold for every list of operations with the
+    property above in which no `chmod` is directly followed by a `mkdir` (no backup directory had to be made) -/
+theorem chmod_late_direct (d : Prop) (ops : List FsOp) (h : DriverFacts.ChmodLate d ops)
+    (hno : ∀ i p m q, ops[i]? = some (FsOp.chmod p m) → ops[i + 1]? ≠ some (FsOp.mkdir q)) :
+    ∀ i p m, ops[i]? = some (FsOp.chmod p m) →
+      (∃ j, j < i ∧ ops[j]? = some (FsOp.creat p)) ∨
+      (∃ op, ops[i + 1]? = some op ∧ ((∃ b, op = FsOp.rename p b) ∨ ∃ b, op = FsOp.creat b)) ∨
+      (d ∧ i + 1 = ops.length) := by
+  intro i p m hi
+  rcases h i p m hi with x | ⟨k, op, e, hop, hmk⟩ | ⟨hd, hall⟩
+  · exact .inl x
+  · cases k with
+    | zero => exact .inr (.inl ⟨op, e, hop⟩)
+    | succ k =>
+      obtain ⟨q, hq⟩ := hmk 0 (by omega)
+      exact absurd hq (hno i p m q hi)
+  · have hlt : i < ops.length := DriverFacts.getElem?_lt_of_some hi
+    rcases Nat.lt_or_ge (i + 1) ops.length with h1 | h1
+    · obtain ⟨q, hq⟩ := hall (i + 1) (by omega) h1
+      exact absurd hq (hno i p m q hi)
+    · exact .inr (.inr ⟨hd, by omega⟩)
+
+/-! the old statement is false: `-B bak/`, the directory `bak` not there, a read-only file `f` whose (deferred) write with a backup is
+    due — `chmod f`, `mkdir bak`, `rename f bak/f`, `creat f`, … (the state is the one a git patch for `f` leaves to
+    `DeferredWriter::finalize`; for a plain unified diff of a read-only `f` under `-b -B bak/` the compiled model gives the same
+    six operations after the temporaries: `#guard` below) -/
+def cexO : Options := { defaultOptions with backupPrefix := [98, 97, 107, 47] }
+def cexS : DState :=
+  { fs := { nodes := [([102], .file [97, 10] 0o444)] }, firstPatch := false,
+    dWrites := [{ dest := [102], content := [98, 10], newMode := 0, perm := { oldPerms := some 0o444, needFix := true },
+                  backup := true }] }
+
+theorem cex_run : (runPatch cexO cexS).2.trace =
+    [.tmpCreate, .tmpUnlink, .chmod [102] 438, .mkdir [98, 97, 107], .rename [102] [98, 97, 107, 47, 102], .creat [102],
+      .write [102] [98, 10], .chmod [102] 292] ∧ (runPatch cexO cexS).1 = 0 := by decide +kernel
+
+theorem chmod_directly_false :
+    ¬ ∀ (o : Options) (s0 : DState), ∃ ops, (runPatch o s0).2.trace = s0.trace ++ ops ∧
+      ∀ i p m, ops[i]? = some (FsOp.chmod p m) →
+        (∃ j, j < i ∧ ops[j]? = some (FsOp.creat p)) ∨
+        (∃ op, ops[i + 1]? = some op ∧ ((∃ b, op = FsOp.rename p b) ∨ ∃ b, op = FsOp.creat b)) ∨
+        ((runPatch o s0).1 = 2 ∧ i + 1 = ops.length) := by
+  intro h
+  obtain ⟨ops, t, hl⟩ := h cexO cexS
+  rw [cex_run.1] at t
+  have t' : ops = [.tmpCreate, .tmpUnlink, .chmod [102] 438, .mkdir [98, 97, 107], .rename [102] [98, 97, 107, 47, 102],
+      .creat [102], .write [102] [98, 10], .chmod [102] 292] := by
+    rw [t]; rfl
+  subst t'
+  rcases hl 2 [102] 438 rfl with ⟨j, hj, e⟩ | ⟨op, e, hop⟩ | ⟨e, _⟩
+  · match j, hj, e with
+    | 0, _, e => cases e
+    | 1, _, e => cases e
+  · cases e
+    rcases hop with ⟨b, hb⟩ | ⟨b, hb⟩ <;> cases hb
+  · rw [cex_run.2] at e; cases e
+
+-- a whole run on a unified diff: `patch -b -B bak/ f` with a read-only `f` (compiled evaluation of the model: a test, not a proof)
+#guard (runPatch { defaultOptions with backupPrefix := [98, 97, 107, 47], saveBackup := true, fileToPatch := [102] }
+    { fs := { nodes := [([102], .file [97, 10] 0o444)] },
+      stdin := str "--- f\n+++ f\n@@ -1 +1 @@\n-a\n+b\n" }).2.trace ==
+  [.tmpCreate, .tmpUnlink, .tmpCreate, .tmpUnlink, .tmpCreate, .tmpUnlink, .chmod [102] 438, .mkdir [98, 97, 107],
+    .rename [102] [98, 97, 107, 47, 102], .creat [102], .write [102] [98, 10], .chmod [102] 292]
 
 /-- after the patched result has been written, the permission callback gives the file exactly the mode a git header asks for, or else
     the mode the target had before (also when it had to be made writable, and also when a backup renamed the original away) -/
@@ -128,7 +207,7 @@ theorem refuse_touches_only_rejects (o : Options) (outputFile : Bytes) (p : Patc
         obtain ⟨d, hd, e⟩ := hq
         exact ⟨d, hd, by rw [e, absPath_cwd c2]⟩
       have c3 : s3.cwd = s.cwd := h3.1.trans c2
-      refine touches_bind (touches_opCreat _ s3 (.inl (absPath_cwd c3 _))) fun _ s4 h4 => ?_
+      refine touches_bind (touches_openRejects _ s3 (.inl (absPath_cwd c3 _))) fun _ s4 h4 => ?_
       have c4 : s4.cwd = s.cwd := h4.1.trans c3
       split
       · exact Touches.refl s4
@@ -150,6 +229,24 @@ theorem refuse_dry (o : Options) (outputFile : Bytes) (p : Patch) (s : DState) (
   simp only [hd]
   rfl
 
+/-- **a refused patch without hunks (a change of mode only) has nothing to save**: `refuse_to_patch` performs no file system
+    operation at all — in particular no empty reject file is created —, whatever the options; it only reports (`refusing`,
+    then `failed 0 0` without a reject file name) -/
+theorem refuse_no_hunks (o : Options) (outputFile : Bytes) (p : Patch) (s : DState) (hh : p.hunks = []) :
+    (refuseToPatch o outputFile p).run s =
+      (.ok (), { s with out := s.out ++ [.refusing] ++ [.failed 0 0 true none] }) := by
+  show run (refuseToPatch o outputFile p) s = _
+  unfold refuseToPatch
+  rw [run_bind_ok (run_emit _ s)]
+  simp only [hh, List.isEmpty_nil, Bool.not_true, Bool.and_false, Bool.false_eq_true, if_false, List.length_nil]
+  rfl
+
+/-- the same, as `refuse_dry` states it: tree, trace (and everything but the messages) unchanged -/
+theorem refuse_no_hunks_untouched (o : Options) (outputFile : Bytes) (p : Patch) (s : DState) (hh : p.hunks = []) :
+    ∃ s', (refuseToPatch o outputFile p).run s = (.ok (), s') ∧ s'.fs = s.fs ∧ s'.trace = s.trace ∧ s'.opCount = s.opCount ∧
+      s'.rejWritten = s.rejWritten :=
+  ⟨_, refuse_no_hunks o outputFile p s hh, rfl, rfl, rfl, rfl⟩
+
 #print axioms readonly_fail_untouched
 #print axioms fixPermissions_reads_only
 #print axioms section_chmod_late
@@ -158,5 +255,9 @@ theorem refuse_dry (o : Options) (outputFile : Bytes) (p : Patch) (s : DState) (
 #print axioms callback_mode
 #print axioms refuse_touches_only_rejects
 #print axioms refuse_dry
+#print axioms refuse_no_hunks
+#print axioms refuse_no_hunks_untouched
+#print axioms chmod_late_direct
+#print axioms chmod_directly_false
 
 end PatchModel.C17
